@@ -42,6 +42,8 @@ func newWorld(kind string, first []string) world {
 		return &wgWorld{}
 	case "dv":
 		return &dvWorld{}
+	case "gs":
+		return &gsWorld{}
 	}
 
 	return nil
@@ -568,6 +570,9 @@ func main() {
 		{"stress basewrite single compute 1 1", "stress basewrite all replace 1 2", "stress basewrite apply single 1 3", "stress basewrite replace all 1 4",
 			"stress basewrite compute apply 1 5", "stress basewrite single apply 0 1", "stress basewrite all single 0 2", "stress basewrite apply compute 0 3",
 			"stress basewrite replace single 0 4", "stress basewrite compute all 0 5"},
+		// compositions, sequentially (differential with the graph model): non-empty base sets at construction, diamond
+		{"gs new ds-sub-ds 1,2 2,3 3,4", "gs add 0 5", "gs add 2 5", "gs del 0 5", "gs replace 1 1,5", "gs apply 2 1 5", "gs del 1 1", "gs replace 0 -"},
+		{"gs new sub-subs 1,2,3 2 1,2", "gs del 1 2", "gs add 1 3", "gs add 1 1", "gs replace 2 -", "gs replace 1 -"},
 		// a writer inside the OnUpdate window (registration + snapshot done, initial invocation not yet) of every subscribing call
 		{"stress onupdate dvar lin 1,5 1 0:3", "stress onupdate dvar lin 1,5 2 1:0", "stress onupdate dvar lin 1,5 2 0:4", "stress onupdate dvar lin 1,2,3 2 1:7,2:0",
 			"stress onupdate dvar sum 0,0,0,1 4 3:0", "stress onupdate inherit 7 1 0", "stress onupdate inherit 0 0 3", "stress onupdate counter even 1 0",
@@ -579,7 +584,7 @@ func main() {
 	for _, c := range corpus {
 		runCase(r, 0, c)
 	}
-	gens := []func(*hx.Rng, int) []string{genDS, genDS, genSR, genCT, genSS, genSS, genEV, genWG, genEV, genDV}
+	gens := []func(*hx.Rng, int) []string{genDS, genDS, genSR, genCT, genSS, genSS, genEV, genWG, genEV, genDV, genGS}
 	nseq := 3200 * r.Scale
 	for i := 0; i < nseq; i++ {
 		rng, sub := r.Rng.Fork()
